@@ -53,7 +53,7 @@ var props = map[string]propCfg{
 		Reach:     []string{"expect-404", "expect-400", "expect-pass", "strict-500", "strict-pass", "pass-through", "fault-seen-by-validator", "shape-silent", "shape-status-only", "shape-write-only", "shape-write-then-status", "shape-multi-status", "shape-status-pieces", "shape-informational-first", "shape-flush-first", "shape-status-write-flush", "shape-aborted", "handler_abort", "client_write_err", "reqbody_eio", "reqbody_reset", "reqbody_unexpected_eof"}},
 	"C15": {Sim: "conc", Race: true, Quick: tierCfg{Runs: 4800, Workers: 16, Budget: 100 * time.Second, Seeds: 1},
 		Thorough:  tierCfg{Runs: 120000, Workers: 16, Budget: 18 * time.Minute, Seeds: 5},
-		Rule:      "one run = 2-6 caller goroutines with 1-4 library calls each (FindRoute on both routers, ValidateRequest over JSON/form/multipart/text bodies with defaults on/off, multi-error, custom regex compilers, reading auth callbacks; ValidateResponse; Schema.VisitJSON/IsMatching in every mode; strict and non-strict middleware ServeHTTP; openapi3gen.NewSchemaRefForValue on compiled-in and per-run reflect.StructOf types) sharing one loaded+validated document (patterns carry the run marker: cold caches), both routers and two middleware instances, executed in a -race build under the zzsimrt scheduler with a seeded policy (serial, uniform-random switch probability 1/3..1/1000, biased towards sites touching shared state, PCT depth 1-3, round-robin quantum 1..1000) and sorted or seeded-permuted map iteration. Oracles: A no race report with a kin-openapi frame in both stacks / no runtime fatal; B every call's outcome equals the same call alone on a fresh document; C no deadlock on library locks, all calls return within the step cap; D the shared document serialises identically before and after. Non-trivial = at least one context switch happened inside library code; distinct = distinct (caller op-kind multiset, hash of the switch sequence projected to (from-site, to-site)) pairs.",
+		Rule:      "one run = 2-6 caller goroutines with 1-4 library calls each (FindRoute on both routers, ValidateRequest over JSON/form/multipart/text bodies with defaults on/off, multi-error, custom regex compilers, reading auth callbacks; ValidateResponse; Schema.VisitJSON/IsMatching in every mode; strict and non-strict middleware ServeHTTP; openapi3gen.NewSchemaRefForValue on compiled-in and per-run reflect.StructOf types) sharing one loaded+validated document (patterns carry the run marker: cold caches), both routers and two middleware instances, executed in a -race build under the zzsimrt scheduler with a seeded policy (serial, uniform-random switch probability 1/3..1/1000, biased towards sites touching shared state, PCT depth 1-3, round-robin quantum 1..1000) and sorted or seeded-permuted map iteration. Oracles: A no race report with a kin-openapi frame in both stacks / no runtime fatal; B every call's outcome equals the same call alone on a fresh document; C no deadlock on library locks, all calls return within the step cap; D the shared document serialises identically before and after. Non-trivial = at least one context switch happened inside library code; distinct = distinct (caller op-kind multiset, hash of the switch sequence projected to (from-site, to-site)) pairs; distinct_cover_items = distinct (site where one caller was stopped, site where the next one resumed) pairs over all context switches inside library code.",
 		DesignRef: "§3 SIM-CONC",
 		Reach:     []string{"switch-inside-library", "calls-overlapped", "lock-contention", "map-order-permuted", "patterns-cold-at-start", "first-use-in-process", "callback-crash-inside-call", "policy-random", "policy-biased", "policy-pct", "policy-rr", "policy-serial"}},
 	"C11": {Sim: "loader", Quick: tierCfg{Runs: 40000, Workers: 16, Budget: 60 * time.Second, Seeds: 1},
@@ -258,6 +258,7 @@ type summaryRec struct {
 	Probes     map[string]int    `json:"probes"`
 	Faults     map[string]int    `json:"faults"`
 	Classes    []uint64          `json:"classes"`
+	Cover      []uint64          `json:"cover"`
 	Samples    []json.RawMessage `json:"samples"`
 	WallS      float64           `json:"wall_s"`
 	LogHashes  []string          `json:"log_hashes"`
@@ -463,7 +464,11 @@ func runCheck(id, tier string, cfg propCfg) int {
 	// aggregate
 	agg := summaryRec{Probes: map[string]int{}, Faults: map[string]int{}, InconclWhy: map[string]int{}}
 	classes := map[uint64]struct{}{}
+	cover := map[uint64]struct{}{}
 	for _, s := range sums {
+		for _, c := range s.Cover {
+			cover[c] = struct{}{}
+		}
 		agg.Runs += s.Runs
 		agg.Steps += s.Steps
 		agg.Nontrivial += s.Nontrivial
@@ -603,24 +608,25 @@ func runCheck(id, tier string, cfg propCfg) int {
 		simS = 0.001
 	}
 	cov := map[string]any{
-		"evaluations":         agg.Runs,
-		"distinct_nontrivial": len(classes),
-		"rule":                cfg.Rule,
-		"samples":             agg.Samples,
-		"simulated_runs":      agg.Runs,
-		"runs_per_hour":       int(float64(agg.Runs) / simS * 3600),
-		"seeds_per_hour":      int(float64(agg.Runs) / simS * 3600),
-		"batch_seeds":         seeds,
-		"simulated_time":      fmt.Sprintf("%d events (the library has no clock: simulated time is the global event/step counter)", agg.Steps),
-		"simulated_events":    agg.Steps,
-		"faults_fired":        agg.Faults,
-		"reach_probes":        agg.Probes,
-		"distinct_measure":    "distinct run classes (see rule), counted over all workers",
-		"inconclusive_runs":   agg.Inconcl,
-		"known_findings_met":  knownHit,
-		"build_s":             buildS,
-		"workers":             workers,
-		"design_ref":          cfg.DesignRef,
+		"evaluations":          agg.Runs,
+		"distinct_nontrivial":  len(classes),
+		"rule":                 cfg.Rule,
+		"samples":              agg.Samples,
+		"simulated_runs":       agg.Runs,
+		"runs_per_hour":        int(float64(agg.Runs) / simS * 3600),
+		"seeds_per_hour":       int(float64(agg.Runs) / simS * 3600),
+		"batch_seeds":          seeds,
+		"simulated_time":       fmt.Sprintf("%d events (the library has no clock: simulated time is the global event/step counter)", agg.Steps),
+		"simulated_events":     agg.Steps,
+		"faults_fired":         agg.Faults,
+		"reach_probes":         agg.Probes,
+		"distinct_measure":     "distinct run classes (see rule), counted over all workers",
+		"inconclusive_runs":    agg.Inconcl,
+		"distinct_cover_items": len(cover),
+		"known_findings_met":   knownHit,
+		"build_s":              buildS,
+		"workers":              workers,
+		"design_ref":           cfg.DesignRef,
 	}
 	var stuck []string
 	for _, p := range cfg.Reach {
